@@ -114,7 +114,7 @@ func genNum(t *rapid.T) string {
 var strPieces = []string{"a", "b", "key", "x1", "foo", "Bar", "0", "1", "-1", "1.5", "1e3", "true", "false", "null", " ", "  ",
 	"'", "''", "#", "/#", "#/", "..", "...", "1..3", "a..z", "%[", "%{", "%", "{", "}", "[", "]", "{}", "[]", ":", ",", ", ", ": ",
 	"@", "@x", "*", "?", "|", ";", "&", "&&", "||", "<", ">", "->", "=>", ">>", "|>", "-", "--", "=", "==", "!", "^", "+", "/", ".",
-	"{RED}", "{BLUE}", "é", "日本", "🙂", " ", " ", "\u007f", "`", "out x", "; out INJECTED", "| out INJECTED", "<err>", "<!out>", "_"}
+	"{RED}", "{BLUE}", "{ESC}", "{F1}", "{RESET}", "{TAB}", "é", "日本", "🙂", " ", " ", "\u007f", "`", "out x", "; out INJECTED", "| out INJECTED", "<err>", "<!out>", "_"}
 
 func genStr(t *rapid.T, max int) string {
 	n := rapid.IntRange(0, max).Draw(t, "strparts")
